@@ -38,6 +38,8 @@ func (u *Unit) frameItems(fr *frame) ([]frameItem, bool) {
 				tf := item[5 : len(item)-1]
 				i := strings.LastIndex(tf, ".")
 				items = append(items, frameItem{prefix: "F:" + tf[:i] + ":" + tf[i+1:]})
+			case strings.HasPrefix(item, "maps("):
+				items = append(items, frameItem{prefix: "MD:" + mapsKey(item)}, frameItem{prefix: "MV:" + mapsKey(item)})
 			case strings.HasPrefix(item, "mem("):
 				ex, err := ParseSpec(item[4 : len(item)-1])
 				if err != nil {
@@ -109,7 +111,7 @@ func (u *Unit) checkFrame(st *State, fr *frame, pos token.Pos) {
 		var windows []Value
 		for _, it := range items {
 			switch {
-			case it.prefix != "" && (k == it.prefix || strings.HasPrefix(k, it.prefix+".") || strings.HasPrefix(k, it.prefix+"[")):
+			case it.prefix != "" && (k == it.prefix || strings.HasPrefix(k, it.prefix+".") || strings.HasPrefix(k, it.prefix+"[") || strings.HasPrefix(k, it.prefix+":")):
 				covered = true
 			case it.lv != nil:
 				for _, l := range flatten(it.lv.T) {
